@@ -83,3 +83,8 @@ claim('C15', 'exploration',
       'Base calls asserted only where every observation has phred >= 20 and the evidence is decidable without an error model. Trusted: pysam record construction, FastaFile.',
       'property-based testing (Hypothesis) with a validity-predicate oracle (many correct outputs) and an independent MD parser',
       'DESIGN.md section 4, C15')
+claim('C02', 'exploration',
+      'Hypothesis-generated accepted read pairs for all 28 registered strategies (whitelisted or 1-mismatch barcodes, N bases, inserts 0..150, qualities 0..51, motif-seeded inserts for the content dependent strategies): for 19 strategies the tags bc BC bi RX RQ rS lh lq ES eq IS MX and the emitted stretch of each mate are compared with a hand-written layout table taken from the description texts (also for a second pair of the same cell through the same strategy instance); for all strategies the emitted record must be one contiguous, quality-aligned stretch of the same mate and single-base perturbations must move exactly the outputs of that position and never the other mate.',
+      'Only accepted pairs. 9 strategies whose descriptions do not fix the positions are covered by the relational part only. Harness barcode directory supplies synthetic whitelists for the aliases that cannot be loaded (10x, DamAndT, DamID2_scattered_10bp).',
+      'property-based testing (Hypothesis) against a hand-written layout reference table + metamorphic single-base perturbation relation',
+      'DESIGN.md section 4, C02')
